@@ -336,6 +336,11 @@ class IKRun:
             t = float(target[j])
             if kind == "near":
                 val = t + r.uniform(-0.01, 0.01)
+            elif kind == "near_mid":        # ends "almost there" when the iteration budget is small
+                rad = (0.05, 0.15, 0.3)[grp % 3]
+                val = t + r.uniform(-rad, rad)
+            elif kind == "near_wide":
+                val = t + r.uniform(-0.5, 0.5)
             elif kind == "far":
                 val = a if (t - a) > (b - t) else b
             else:
@@ -659,10 +664,15 @@ def gen_trace(seed):
         n, mins, maxs = arm_info(spec.get("file", "6R"), {k: v for k, v in spec.items() if k != "base"})
         mins, maxs = mins.copy(), maxs.copy()
     # swarm
-    tol_mode = pick_weighted(r, [("default", 2.0), ("independent", 4.0), ("pos_loose", 1.5), ("rot_loose", 1.5)])
+    tol_mode = pick_weighted(r, [("default", 2.0), ("independent", 4.0), ("pos_loose", 1.5), ("rot_loose", 1.5), ("loose", 2.0)])
     p_protect = r.choice([0.0, 0.3, 0.3, 1.0])
     iters_mode = pick_weighted(r, [("tiny", 1.5), ("small", 2.0), ("mid", 2.0), ("generous", 3.0)])
     restart_mode = pick_weighted(r, [("natural", 3.0), ("scripted", 4.0), ("off", 1.5)])
+    # a correlated corner the independent knobs meet too rarely: coarse or unequal tolerances, a small iteration
+    # budget and restarts that end "almost there" before one succeeds (near miss, then success)
+    campaign = pick_weighted(r, [("none", 7.0), ("nearmiss", 1.0)])
+    if campaign == "nearmiss":
+        tol_mode, iters_mode, restart_mode, p_protect = "loose", r.choice(["tiny", "tiny", "tiny", "small", "small"]), "scripted", 0.0
     length = pick_weighted(ro, [(1, 2.0), (2, 2.0), (3, 2.0), (ro.randint(4, 6), 2.0), (ro.randint(7, 10), 1.0)])
     steps = []
 
@@ -671,6 +681,8 @@ def gen_trace(seed):
             return None
         if tol_mode == "independent":
             return {"op": "tol", "pos": float("%.3g" % log_uniform(ro, 1e-9, 1e-2)), "rot": float("%.3g" % log_uniform(ro, 1e-9, 1e-2))}
+        if tol_mode == "loose":     # coarse tolerances: attempts that end "almost there" are common
+            return {"op": "tol", "pos": float("%.3g" % log_uniform(ro, 1e-3, 1e-1)), "rot": float("%.3g" % log_uniform(ro, 1e-3, 1e-1))}
         if tol_mode == "pos_loose":
             return {"op": "tol", "pos": float("%.3g" % log_uniform(ro, 1e-4, 1e-2)), "rot": float("%.3g" % log_uniform(ro, 1e-9, 1e-6))}
         return {"op": "tol", "pos": float("%.3g" % log_uniform(ro, 1e-9, 1e-6)), "rot": float("%.3g" % log_uniform(ro, 1e-4, 1e-2))}
@@ -737,11 +749,19 @@ def gen_trace(seed):
         if st.get("local") and ro.random() < 0.7:
             st["max_iters"] = max(st["max_iters"], ro.choice([10, 12, 30]))
         if restart_mode == "scripted":
+            if campaign == "nearmiss":
+                st["check"] = True
+                st["level"] = max(st["level"], ro.randint(2, 6))
             L = max(st["level"], 1)
             k_succ = ro.randrange(L + 1)          # which restart (if any) gets the near-solution draw
+            if campaign == "nearmiss":
+                k_succ = ro.randrange(1, L)
             kinds = []
             for i in range(L):
-                kinds.append("near" if i == k_succ else ro.choice(["far", "far", "uniform", "edge", "zero"]))
+                others = ["far", "uniform", "edge", "zero", "near_mid", "near_mid", "near_wide", "near_wide"]
+                if campaign == "nearmiss":
+                    others = ["near_mid", "near_mid", "near_wide", "far"]
+                kinds.append("near" if i == k_succ else ro.choice(others))
             st["rs"] = {"kinds": kinds, "seed": ro.getrandbits(32)}
         else:
             st["rs"] = {"kinds": ["uniform"], "seed": ro.getrandbits(32)}
@@ -805,7 +825,7 @@ def gen_trace(seed):
             if t2:
                 steps.append(t2)
     return {"property": PROP, "config": {"arm": spec, "swarm": {"tol": tol_mode, "iters": iters_mode, "restarts": restart_mode,
-                                                              "p_protect": p_protect}}, "steps": steps}
+                                                              "p_protect": p_protect, "campaign": campaign}}, "steps": steps}
 
 
 def _unit_n(r, n):
@@ -819,7 +839,7 @@ def _unit_n(r, n):
 LEVEL = "exploration"
 HAS_CLOCK = False
 TIERS = {
-    "quick": {"runs": 24000, "wall": 70, "chunk": 100, "det_sample": 48, "min_wall": 60.0},
+    "quick": {"runs": 40000, "wall": 90, "chunk": 100, "det_sample": 48, "min_wall": 60.0},
     "thorough": {"runs": 600000, "wall": 800, "chunk": 200, "det_sample": 96, "min_wall": 180.0},
 }
 RULE = ("One run = one arm (5 bundled URDFs, the 6R test arm, random 1-7-joint revolute chains; identity or random base) and a "
